@@ -123,7 +123,15 @@ class Minimiser:
                     keep = [j for j in range(nrows) if j != drop]
                     c["frames"][fid] = F.take_rows(c["frames"][fid], keep)
                     cop = c["ops"][k]
-                    if cop.get("kind") == "rows":
+                    if cop.get("kind") == "rows" and cop.get("tpos") is not None:
+                        tpos, idx = list(cop["tpos"]), list(cop["idx"])
+                        if drop in tpos:
+                            k = tpos.index(drop)
+                            tpos.pop(k)
+                            idx.pop(k)
+                        cop["tpos"] = [t - (t > drop) for t in tpos]
+                        cop["idx"] = idx
+                    elif cop.get("kind") == "rows":
                         cop["idx"] = [cop["idx"][j] for j in keep]
                     if cop.get("kind") == "unseen":
                         c["frames"][cop["twin"]] = F.take_rows(c["frames"][cop["twin"]], keep)
